@@ -484,6 +484,15 @@ Definition n_resize_outputs h n (k : Z) (fresh : list vid) :=
       K (bump_vs (with_po h (set_outs (po_adopt (hpo h) n len fresh) n (l ++ fresh))) fresh)
     else R h OtherError.       (* ill-formed op (ids not fresh): not a call the harness can make *)
 
+(* for i, output in enumerate(graph.outputs): if output is self: graph.outputs[i] = replacement *)
+Fixpoint rau_outputs (c : cfg) (s : ow_st) (hpf : vid -> bool) (g : gid) (v r : vid) (i : nat) (l : list vid) : ow_st * res unit :=
+  match l with
+  | [] => K s
+  | o :: t => if o =? v then
+                let '(s', r') := io_setitem c KOut s hpf g (Z.of_nat i) r in
+                match r' with Raise e => (s', Raise e) | Ok _ => rau_outputs c s' hpf g v r (S i) t end
+              else rau_outputs c s hpf g v r (S i) t
+  end.
 Definition v_replace_all_uses (c : cfg) h v (r : vid) (rgo : bool) :=
   let go_uses h := fold_left (fun h u => with_io h (io_replace (hio h) (fst u) (snd u) (Some r))) (uses (hio h) v) h in
   if flag KOut (how h) v then
@@ -491,15 +500,7 @@ Definition v_replace_all_uses (c : cfg) h v (r : vid) (rgo : bool) :=
     | None => R h AssertionError
     | Some g =>
       if negb rgo then R h ValueError else
-      let fix go (s : ow_st) (i : nat) (l : list vid) : ow_st * res unit :=
-        match l with
-        | [] => K s
-        | o :: t => if o =? v then
-                      let '(s', r') := io_setitem c KOut s (hp h) g (Z.of_nat i) r in
-                      match r' with Raise e => (s', Raise e) | Ok _ => go s' (S i) t end
-                    else go s (S i) t
-        end in
-      let '(s', r') := go (how h) 0 (iol KOut (how h) g) in
+      let '(s', r') := rau_outputs c (how h) (hp h) g v r 0 (iol KOut (how h) g) in
       match r' with Raise e => (with_ow h s', Raise e) | Ok _ => K (go_uses (with_ow h s')) end
     end
   else K (go_uses h).
